@@ -63,7 +63,7 @@ TCall ==
           /\ P' = [x0 |-> c.x0.r, xe |-> c.xend.r, slo |-> c.m.xend_lo, shi |-> c.m.xend_hi,
                    nmax |-> IF c.maxsteps < 0 THEN 100000 ELSE c.maxsteps, hmax |-> 0]
           /\ x' = c.x0.r /\ xold' = c.x0.r /\ xph' = c.x0.r
-          /\ h' = h0 /\ last' = (fx # 0 /\ c.m.xend_lo <= fx)
+          /\ h' = h0 /\ last' \in {fx # 0 /\ c.m.xend_lo <= fx, FALSE}
           /\ first' = TRUE /\ reject' = FALSE /\ callJac' = TRUE /\ callDecomp' = TRUE
           /\ sing' = 0 /\ theta' = "init" /\ it' = 0 /\ pc' = "f0" /\ status' = "None"
           /\ nJac' = 0 /\ nLu' = 0 /\ nOde' = 0 /\ total' = 0 /\ acc' = 0 /\ rej' = 0 /\ ncb' = 0
